@@ -12,15 +12,11 @@ Definition src_response_core (cf : config) (buf : list N) (rp : response) (arr :
   fin_resp (ifun (g_response_core_body E (S (length buf)) cf buf)
                  (g_response_core_init (p_version rp) (p_code rp) (p_reason rp) (p_hdrs rp) arr arr)
                  (cur_new buf)).
-(* the wrappers, as Api.v models them, over the translated core (their Rust text is pinned:
-   LibApi.wrappers_pinned) *)
+(* Response::parse_with_config as TRANSLATED; the remaining one-line delegations are pinned by their token text *)
 Definition src_response_with_config (cf : config) (buf : list N) (rp : response) : rp_res :=
-  let headers := p_hdrs rp in
-  let rp0 := mkresp (p_version rp) (p_code rp) (p_reason rp) [] in
-  match src_response_core cf buf rp0 headers with
-  | (Complete n, rp', arr') => (Complete n, rp', arr')
-  | (other, rp', arr') => (other, mkresp (p_version rp') (p_code rp') (p_reason rp') arr', arr')
-  end.
+  fin_respw (ifun (g_response_with_config_body E (S (length buf)) cf buf)
+                  (g_response_with_config_init (p_version rp) (p_code rp) (p_reason rp) (p_hdrs rp) [] [])
+                  (cur_new buf)).
 Definition src_response_call (e : entry) (cf : config) (buf : list N) (arr : list slot) (rp : response) : rp_res :=
   match e with
   | EParse => src_response_with_config config_default buf rp
@@ -35,8 +31,8 @@ Lemma src_response_core_eq cf buf rp arr : src_response_core cf buf rp arr = res
 Proof. apply tie_response_core. exact Efwd. Qed.
 Lemma src_response_call_eq e cf buf arr rp : src_response_call e cf buf arr rp = response_call E e cf buf arr rp.
 Proof.
-  destruct e; cbn [src_response_call response_call]; unfold src_response_with_config, response_with_config;
-    rewrite ?src_response_core_eq; reflexivity.
+  destruct e; cbn [src_response_call response_call]; unfold src_response_with_config;
+    rewrite ?src_response_core_eq, ?(tie_response_with_config E Efwd); reflexivity.
 Qed.
 End Src.
 
